@@ -247,4 +247,78 @@ def hwEncoder (n k : Nat) (optimize fullHwp : Bool) : List GD :=
     ({ kind := .RBS, q0 := last - st.src, q1 := last - st.dst, e := idx, ctrl := controls } : GD)) steps
   xs ++ gs
 
+/-! ## closed forms established by the proofs (QV/Proofs/EncodingsTree.lean, QV/Proofs/Ehrlich.lean)
+and compared with the real code on every run as well -/
+
+/-- row `d` of the tree loader on `2^m` qubits in closed form: gate `j < 2^d` acts on the
+qubits `n-1-j·2^(m-d)` and `n-1-(j·2^(m-d)+2^(m-d-1))` and takes circuit parameter `2^d-1+j`. -/
+def treeRowGates (m d : Nat) : List GD :=
+  (List.range (2 ^ d)).map (fun j =>
+    { kind := .RBS
+      q0 := 2 ^ m - 1 - j * 2 ^ (m - d)
+      q1 := 2 ^ m - 1 - (j * 2 ^ (m - d) + 2 ^ (m - d - 1))
+      e := 2 ^ d - 1 + j })
+
+/-- all RBS gates of `unary_encoder(·, "tree")` on `2^m` qubits, in queue order. -/
+def treeGates (m : Nat) : List GD := (List.range m).flatMap (treeRowGates m)
+
+/-- bit string and marker list after `k` steps of the Ehrlich walk. -/
+def ehrState : Nat → List Bool → List Nat → List Bool × List Nat
+  | 0, bs, ms => (bs, ms)
+  | k + 1, bs, ms => ehrState k (nextString bs ms).bits (nextString bs ms).markers
+
+/-- where the walk that starts on `1^w 0^z` ends: `0 1^w 0^(z-1)` for odd `w`, `0^z 1^w` for
+even `w` (the string itself when `w = 0` or `z = 0`). -/
+def endA (w z : Nat) : List Bool :=
+  if w = 0 ∨ z = 0 then List.replicate w true ++ List.replicate z false
+  else if w % 2 = 1 then false :: (List.replicate w true ++ List.replicate (z - 1) false)
+  else List.replicate z false ++ List.replicate w true
+
+/-- the table of admissible initial strings of the walk (`kind` 0: `1^w 0^z`; 1: `0 1^w 0^z`,
+needs `w` even or `z = 0`; 2: `0^z 1^w`, needs `w` odd or `z ≤ 1`) … -/
+def seValid (kind w z : Nat) : Bool :=
+  match kind with
+  | 0 => true
+  | 1 => w % 2 == 0 || z == 0
+  | _ => w % 2 == 1 || decide (z ≤ 1)
+
+def seStart (kind w z : Nat) : List Bool :=
+  match kind with
+  | 0 => List.replicate w true ++ List.replicate z false
+  | 1 => false :: (List.replicate w true ++ List.replicate z false)
+  | _ => List.replicate z false ++ List.replicate w true
+
+/-- … and the string the walk started there ends on. -/
+def seEnd (kind w z : Nat) : List Bool :=
+  match kind with
+  | 0 => endA w z
+  | 1 => List.replicate w true ++ List.replicate (z + 1) false
+  | _ => List.replicate w true ++ List.replicate z false
+
+/-- `_intermediate_gate`: the initial string of the next Hamming-weight block of the
+hyperspherical binary encoder is the last string of the walk of weight `w` with one more 1:
+at the lowest empty position for odd `w`, at the highest empty position for even `w`. -/
+def hsNextInit (last : List Bool) (w : Nat) : List Bool :=
+  let zeros := (List.range last.length).filter (fun i => !last.getD i false)
+  let idx := if w % 2 = 0 then zeros.getLast?.getD 0 else zeros.head?.getD 0
+  last.set idx true
+
+/-- last string of the walk that starts on `init`. -/
+def ehrLast (init : List Bool) : List Bool :=
+  (ehrState (choose init.length (weight init) - 1) init (getMarkers init false)).1
+
+/-- the initial strings `_binary_encoder_hyperspherical` passes to `hamming_weight_encoder`
+for the weights `w, w+1, …` (`fuel` of them). -/
+def hsInitsFrom : Nat → Nat → List Bool → List (List Bool)
+  | 0, _, _ => []
+  | fuel + 1, w, init => init :: hsInitsFrom fuel (w + 1) (hsNextInit (ehrLast init) w)
+
+def hsInits (n : Nat) : List (List Bool) :=
+  hsInitsFrom (n - 1) 1 (true :: List.replicate (n - 1) false)
+
+/-- closed form of `hsInits`: weight 1: `1 0^(n-1)`, even `w`: `1^w 0^(n-w)`, odd `w ≥ 3`:
+`0^(n-w) 1^w`. -/
+def hsInitClosed (n w : Nat) : List Bool :=
+  if w = 1 ∨ w % 2 = 0 then seStart 0 w (n - w) else seStart 2 w (n - w)
+
 end QV.Enc
